@@ -474,5 +474,299 @@ theorem u_foldl (keep : Bool) (k : κ) (ops : List (Op κ)) (v : View)
     | store n x => by_cases hn : n = k <;> cases hu : v.u <;> simp [vstep, uval, utouch, uplain, hu, hn]
     | get n => cases hu : v.u <;> simp [vstep, uval, utouch, uplain, hu]
 
+/-! ## Facts about the history functions -/
+
+/-- the step of the fold defining `lastReg` -/
+def rstep (k : κ) (a : Option MType) : Op κ → Option MType
+  | .register n ty => if n = k then some ty else a
+  | _ => a
+
+theorem lastReg_eq (k : κ) (ops : List (Op κ)) : lastReg k ops = ops.foldl (rstep k) none := by
+  unfold lastReg; congr 1
+
+theorem ty_foldl' (keep : Bool) (k : κ) (ops : List (Op κ)) (v : View) :
+    (ops.foldl (vstep keep k) v).ty = ops.foldl (rstep k) v.ty := by
+  rw [ty_foldl]; congr 1
+
+/-- no `Register` of `k` (of any type) in the history -/
+def NoReg (k : κ) (ops : List (Op κ)) : Prop := ∀ ty, ¬ Registers k ty ops
+
+theorem NoReg.tail {k : κ} {o : Op κ} {os : List (Op κ)} (h : NoReg k (o :: os)) : NoReg k os :=
+  fun ty hm => h ty (List.mem_cons_of_mem _ hm)
+
+theorem rfold_noReg (k : κ) (ops : List (Op κ)) (a : Option MType) (h : NoReg k ops) :
+    ops.foldl (rstep k) a = a := by
+  induction ops generalizing a with
+  | nil => rfl
+  | cons o os ih =>
+    simp only [List.foldl_cons]
+    rw [ih _ h.tail]
+    cases o with
+    | register n ty =>
+      by_cases hn : n = k
+      · subst hn; exact absurd List.mem_cons_self (h ty)
+      · simp [rstep, hn]
+    | _ => rfl
+
+/-- a history whose last registration of `k` has type `ty` splits at that registration -/
+theorem rfold_split (k : κ) (ops : List (Op κ)) (a : Option MType) (ty : MType)
+    (h : ops.foldl (rstep k) a = some ty) :
+    (a = some ty ∧ NoReg k ops) ∨
+      ∃ pre post, ops = pre ++ Op.register k ty :: post ∧ NoReg k post := by
+  induction ops generalizing a with
+  | nil => left; exact ⟨h, fun _ hm => by simp [Registers] at hm⟩
+  | cons o os ih =>
+    simp only [List.foldl_cons] at h
+    rcases ih _ h with ⟨h1, h2⟩ | ⟨pre, post, h1, h2⟩
+    · by_cases ho : ∃ ty', o = Op.register k ty'
+      · obtain ⟨ty', rfl⟩ := ho
+        simp [rstep] at h1
+        subst h1
+        right; exact ⟨[], os, rfl, h2⟩
+      · left
+        refine ⟨?_, ?_⟩
+        · cases o with
+          | register n ty' =>
+            by_cases hn : n = k
+            · subst hn; exact absurd ⟨ty', rfl⟩ ho
+            · simpa [rstep, hn] using h1
+          | _ => simpa [rstep] using h1
+        · intro ty' hm
+          rcases List.mem_cons.mp hm with hm | hm
+          · exact ho ⟨ty', hm.symm⟩
+          · exact h2 ty' hm
+    · right; exact ⟨o :: pre, post, by simp [h1], h2⟩
+
+theorem lastReg_split (k : κ) (ops : List (Op κ)) (ty : MType) (h : lastReg k ops = some ty) :
+    ∃ pre post, ops = pre ++ Op.register k ty :: post ∧ NoReg k post := by
+  rw [lastReg_eq] at h
+  rcases rfold_split k ops none ty h with ⟨h1, _⟩ | h
+  · cases h1
+  · exact h
+
+theorem lastReg_registers (k : κ) (ops : List (Op κ)) (ty : MType) (h : lastReg k ops = some ty) :
+    Registers k ty ops := by
+  obtain ⟨pre, post, rfl, _⟩ := lastReg_split k ops ty h
+  simp [Registers]
+
+theorem lastReg_append_noReg (k : κ) (l₁ l₂ : List (Op κ)) (h : NoReg k l₂) :
+    lastReg k (l₁ ++ l₂) = lastReg k l₁ := by
+  rw [lastReg_eq, lastReg_eq, List.foldl_append, rfold_noReg _ _ _ h]
+
+theorem lastReg_append_register (k : κ) (l₁ l₂ : List (Op κ)) (ty : MType) (h : NoReg k l₂) :
+    lastReg k (l₁ ++ Op.register k ty :: l₂) = some ty := by
+  rw [lastReg_eq, List.foldl_append, List.foldl_cons, rfold_noReg _ _ _ h]
+  simp [rstep]
+
+/-- the step of the fold defining `slast` -/
+def sstep (k : κ) (a : Option Int) : Op κ → Option Int
+  | .store n x => if n = k then some x else a
+  | _ => a
+
+theorem slast_eq (k : κ) (ops : List (Op κ)) : slast k ops = ops.foldl (sstep k) none := by
+  unfold slast; congr 1
+
+theorem sfold_some (k : κ) (ops : List (Op κ)) (x : Int) : ops.foldl (sstep k) (some x) ≠ none := by
+  induction ops generalizing x with
+  | nil => simp
+  | cons o os ih =>
+    simp only [List.foldl_cons]
+    cases o with
+    | store n y =>
+      by_cases hn : n = k
+      · simpa [sstep, hn] using ih y
+      · simpa [sstep, hn] using ih x
+    | _ => exact ih x
+
+theorem slast_append_none (k : κ) (l₁ l₂ : List (Op κ)) (h : slast k (l₁ ++ l₂) = none) :
+    slast k l₁ = none := by
+  rw [slast_eq, List.foldl_append] at h
+  rw [slast_eq]
+  cases hs : l₁.foldl (sstep k) none with
+  | none => rfl
+  | some x => rw [hs] at h; exact absurd h (sfold_some k l₂ x)
+
+theorem any_ctouch_of_registers (k : κ) (ops : List (Op κ)) (h : Registers k .counter ops) :
+    ops.any (ctouch k) = true :=
+  List.any_eq_true.mpr ⟨_, h, by simp [ctouch]⟩
+
+theorem any_gtouch_of_registers (k : κ) (ops : List (Op κ)) (h : Registers k .gauge ops) :
+    ops.any (gtouch k) = true :=
+  List.any_eq_true.mpr ⟨_, h, by simp [gtouch]⟩
+
+theorem any_utouch_of_registers (k : κ) (ops : List (Op κ)) (h : Registers k .updown ops) :
+    ops.any (utouch k) = true :=
+  List.any_eq_true.mpr ⟨_, h, by simp [utouch]⟩
+
+/-- a later `Gauge(k, _)` makes the start value irrelevant -/
+theorem gfold_overwritten (k : κ) (ops : List (Op κ)) (a b : Int) (h : ∃ x, Op.gauge k x ∈ ops) :
+    ops.foldl (gstep k) a = ops.foldl (gstep k) b := by
+  induction ops generalizing a b with
+  | nil => obtain ⟨x, hx⟩ := h; simp at hx
+  | cons o os ih =>
+    simp only [List.foldl_cons]
+    by_cases ho : ∃ x, o = Op.gauge k x
+    · obtain ⟨x, rfl⟩ := ho; simp [gstep]
+    · obtain ⟨x, hx⟩ := h
+      rcases List.mem_cons.mp hx with hx | hx
+      · exact absurd ⟨x, hx.symm⟩ ho
+      · have e : ∀ c, gstep k c o = c := by
+          intro c
+          cases o with
+          | gauge n y =>
+            by_cases hn : n = k
+            · subst hn; exact absurd ⟨y, rfl⟩ ho
+            · simp [gstep, hn]
+          | _ => rfl
+        rw [e a, e b]; exact ih a b ⟨x, hx⟩
+
+theorem glast_append (k : κ) (l₁ l₂ : List (Op κ)) :
+    glast k (l₁ ++ l₂) = l₂.foldl (gstep k) (glast k l₁) := by
+  rw [glast_eq, glast_eq, List.foldl_append]
+
+/-! ## Order independence of the atomic adds -/
+
+theorem foldl_perm_of_comm {α β : Type} (f : β → α → β) (P : α → Prop)
+    (hc : ∀ b x y, P x → P y → f (f b x) y = f (f b y) x)
+    {l₁ l₂ : List α} (hp : l₁.Perm l₂) (hP : ∀ x ∈ l₁, P x) (b : β) :
+    l₁.foldl f b = l₂.foldl f b := by
+  induction hp generalizing b with
+  | nil => rfl
+  | cons x _ ih => simp only [List.foldl_cons]; exact ih (fun y hy => hP y (List.mem_cons_of_mem _ hy)) _
+  | swap x y l =>
+    simp only [List.foldl_cons]
+    rw [hc b y x (hP y List.mem_cons_self) (hP x (List.mem_cons_of_mem _ List.mem_cons_self))]
+  | trans h₁ _ ih₁ ih₂ =>
+    rw [ih₁ hP b]
+    exact ih₂ (fun x hx => hP x (h₁.mem_iff.mpr hx)) b
+
+def cadd (d : Nat) (v : View) : View := { v with c := some ((orZero 0 v.c + d) % u64) }
+def uadd (d : Int) (v : View) : View := { v with u := some (orZero 0 v.u + d) }
+
+/-- an atomic add is `cadd` or `uadd` on the view of its own name and nothing elsewhere -/
+theorem add_form (keep : Bool) (k : κ) (x : Op κ) (hx : x.isAdd = true) :
+    ∃ n, (∃ d, ∀ v, vstep keep k v x = if n = k then cadd d v else v) ∨
+         (∃ d, ∀ v, vstep keep k v x = if n = k then uadd d v else v) := by
+  cases x with
+  | increment n => exact ⟨n, Or.inl ⟨1, fun v => rfl⟩⟩
+  | count n d => exact ⟨n, Or.inl ⟨toU64 d, fun v => rfl⟩⟩
+  | up n => exact ⟨n, Or.inr ⟨1, fun v => rfl⟩⟩
+  | down n => exact ⟨n, Or.inr ⟨-1, fun v => by simp [vstep, uadd, Int.sub_eq_add_neg]⟩⟩
+  | _ => simp [Op.isAdd] at hx
+
+theorem cadd_comm (a b : Nat) (v : View) : cadd a (cadd b v) = cadd b (cadd a v) := by
+  cases hc : v.c <;> simp only [cadd, orZero, hc, u64] <;> congr 2 <;> omega
+
+theorem uadd_comm (a b : Int) (v : View) : uadd a (uadd b v) = uadd b (uadd a v) := by
+  cases hu : v.u <;> simp only [uadd, orZero, hu] <;> congr 2 <;> omega
+
+theorem cadd_uadd_comm (a : Nat) (b : Int) (v : View) : cadd a (uadd b v) = uadd b (cadd a v) := by
+  simp [cadd, uadd]
+
+theorem vstep_comm (keep : Bool) (k : κ) (v : View) (x y : Op κ) (hx : x.isAdd = true) (hy : y.isAdd = true) :
+    vstep keep k (vstep keep k v x) y = vstep keep k (vstep keep k v y) x := by
+  obtain ⟨n, hx⟩ := add_form keep k x hx
+  obtain ⟨m, hy⟩ := add_form keep k y hy
+  rcases hx with ⟨a, hx⟩ | ⟨a, hx⟩ <;> rcases hy with ⟨b, hy⟩ | ⟨b, hy⟩ <;>
+    simp only [hx, hy] <;> by_cases h1 : n = k <;> by_cases h2 : m = k <;>
+    simp only [h1, h2, if_true, if_false]
+  · exact cadd_comm b a v
+  · exact (cadd_uadd_comm a b v).symm
+  · exact cadd_uadd_comm b a v
+  · exact uadd_comm b a v
+
+/-! ## The float conversion -/
+
+theorem f64OfNat_exact (n : Nat) (h : n < f64Exact) : f64OfNat n = n := by
+  unfold f64OfNat; rw [if_pos h]
+
+theorem f64OfNat_eq_zero (n : Nat) (h : f64OfNat n = 0) : n = 0 := by
+  unfold f64OfNat at h
+  by_cases hlt : n < f64Exact
+  · rw [if_pos hlt] at h; exact h
+  · rw [if_neg hlt] at h
+    exfalso
+    have hn : n ≠ 0 := by unfold f64Exact at hlt; omega
+    have hle : 2 ^ (n.log2 - 52) ≤ n :=
+      Nat.le_trans (Nat.pow_le_pow_right (by omega) (Nat.sub_le _ _)) (Nat.log2_self_le hn)
+    have hpos : 0 < 2 ^ (n.log2 - 52) := Nat.pow_pos (by omega)
+    have hq : 0 < n / 2 ^ (n.log2 - 52) := Nat.div_pos hle hpos
+    simp only at h
+    rcases Nat.mul_eq_zero.mp h with h | h
+    · split at h <;> omega
+    · omega
+
+theorem f64OfInt_eq_zero (v : Int) (h : f64OfInt v = 0) : v = 0 := by
+  unfold f64OfInt at h
+  by_cases hv : 0 ≤ v
+  · rw [if_pos hv] at h
+    have := f64OfNat_eq_zero v.toNat (by omega)
+    omega
+  · rw [if_neg hv] at h
+    have := f64OfNat_eq_zero (-v).toNat (by omega)
+    omega
+
+/-! ### `Get` on a view whose routing is known -/
+
+theorem vget_store (v : View) (x : Int) (hs : v.s = some x) : vget v = some x := by
+  unfold vget; rw [hs]
+
+theorem vget_counter (v : View) (hs : v.s = none) (ht : v.ty = some .counter) :
+    vget v = v.c.map (fun c => (f64OfNat c : Int)) := by
+  unfold vget; rw [hs, ht]
+
+theorem vget_gauge (v : View) (hs : v.s = none) (ht : v.ty = some .gauge) : vget v = v.g := by
+  unfold vget; rw [hs, ht]
+
+theorem vget_updown (v : View) (hs : v.s = none) (ht : v.ty = some .updown) :
+    vget v = v.u.map f64OfInt := by
+  unfold vget; rw [hs, ht]
+
+theorem initV_false {α : Type} (z : α) (x : Option α) : initV false z x = some z := by
+  cases x <;> rfl
+
+theorem noReg_append {k : κ} {l₁ l₂ : List (Op κ)} (h₁ : NoReg k l₁) (h₂ : NoReg k l₂) :
+    NoReg k (l₁ ++ l₂) := by
+  intro ty hm
+  rcases List.mem_append.mp hm with hm | hm
+  · exact h₁ ty hm
+  · exact h₂ ty hm
+
+theorem csum_nonneg (k : κ) (ops : List (Op κ)) (h : ∀ op ∈ ops, 0 ≤ cplain k op) : 0 ≤ csum k ops := by
+  induction ops with
+  | nil => simp [csum]
+  | cons o os ih =>
+    rw [csum_cons]
+    have := h o List.mem_cons_self
+    have := ih (fun op hm => h op (List.mem_cons_of_mem _ hm))
+    omega
+
+/-- the view of `k` right after `Register(k, ty)` in the code: the entry of type `ty` is zero -/
+theorem view_after_register (pre post : List (Op κ)) (k : κ) (ty : MType) :
+    (pre ++ Op.register k ty :: post).foldl (vstep false k) {} =
+      post.foldl (vstep false k) (vstep false k (pre.foldl (vstep false k) {}) (.register k ty)) := by
+  rw [List.foldl_append, List.foldl_cons]
+
+
+/-- the view has an entry in the value map of type `ty` (histograms have no map) -/
+def hasEntry (v : View) : MType → Bool
+  | .counter => v.c.isSome
+  | .gauge => v.g.isSome
+  | .updown => v.u.isSome
+  | .histogram => true
+
+theorem vstep_register_same_fixed (k : κ) (v : View) (ty : MType)
+    (ht : v.ty = some ty) (he : hasEntry v ty = true) :
+    vstep true k v (.register k ty) = v := by
+  obtain ⟨t, c, g, u, s⟩ := v
+  simp only at ht
+  subst ht
+  cases ty with
+  | counter => cases c <;> simp_all [hasEntry, vstep, initV]
+  | gauge => cases g <;> simp_all [hasEntry, vstep, initV]
+  | updown => cases u <;> simp_all [hasEntry, vstep, initV]
+  | histogram => simp [vstep]
+
+
 end
 end Refinery.Lemmas.Metrics
